@@ -7,7 +7,7 @@ cd /verif
 git -C /repo apply "$PATCH" || { echo "$NAME: cannot apply to /repo"; exit 2; }
 CAUGHT=(); DETAILS=""
 for p in C01 C02 C03 C04 C05 C06 C07 C08 C09 C10 C11 C12 C13 C14 C15 C16 C17 C18 C19; do
-  out=$(./run.sh $p quick 2>&1); rc=$?
+  if [ -n "$ARTCHECK_BIN" ]; then out=$($ARTCHECK_BIN -p $p -tier quick 2>&1); rc=$?; else out=$(./run.sh $p quick 2>&1); rc=$?; fi
   if [ $rc -eq 1 ]; then CAUGHT+=($p); DETAILS="$DETAILS$(echo "$out" | grep -A1 '^VIOLATION' | grep -v '^--\|^VIOLATION' | head -2 | cut -c1-300 | sed "s/^/$p: /")
 "; elif [ $rc -ne 0 ]; then DETAILS="${DETAILS}$p: exit $rc $(echo "$out" | tail -1 | cut -c1-200)
 "; fi
